@@ -234,6 +234,9 @@ class BehavioralRTLIRTypeCheckVisitorL2( BehavioralRTLIRTypeCheckVisitorL1 ):
     rhs_is_vector = isinstance(rhs_dtype, rdt.Vector)
     lhs_nbits, rhs_nbits = lhs_dtype.get_length(), rhs_dtype.get_length()
 
+    # The side that determines the type of the whole expression
+    typed_side = node.body
+
     # Unify body and orelse if both are rdt.Vector
     if lhs_is_vector and rhs_is_vector and lhs_nbits != rhs_nbits:
       is_lhs_inferred = not node.body._is_explicit
@@ -246,18 +249,21 @@ class BehavioralRTLIRTypeCheckVisitorL2( BehavioralRTLIRTypeCheckVisitorL1 ):
 
       # Both sides are implicit
       elif is_lhs_inferred and is_rhs_inferred:
+        # Re-size the narrower side to the bitwidth of the wider side
         if lhs_nbits >= rhs_nbits:
           target_nbits = lhs_nbits
-          op = node.body
+          op = node.orelse
         else:
           target_nbits = rhs_nbits
-          op = node.orelse
+          op = node.body
+          typed_side = node.orelse
         context = rt.NetWire(rdt.Vector(target_nbits))
         s.enforcer.enter( s.blk, context, op )
 
       else:
         # One side is explicit and the other implicit
         if is_lhs_inferred:
+          typed_side = node.orelse
           exp_str, imp_str = "or-else", "body"
           context, op, explicit, implicit = node.orelse.Type, node.body, rhs_nbits, lhs_nbits
         else:
@@ -269,7 +275,7 @@ class BehavioralRTLIRTypeCheckVisitorL2( BehavioralRTLIRTypeCheckVisitorL1 ):
               f"the {imp_str} side requires more bits ({implicit})!" )
         s.enforcer.enter( s.blk, context, op )
 
-    node.Type = node.body.Type
+    node.Type = typed_side.Type
     node._is_explicit = node.body._is_explicit or node.orelse._is_explicit
 
   def visit_UnaryOp( s, node ):
